@@ -567,9 +567,9 @@ func (e *Exec) assertObl(c *Term, msg string) {
 	}
 	var r string
 	if c.IsFalse() {
-		r = e.sol.Check()
+		r = e.sol.CheckObligation()
 	} else {
-		r = e.sol.Check(Lit{c, true})
+		r = e.sol.CheckObligation(Lit{c, true})
 	}
 	switch r {
 	case "unsat":
